@@ -1,0 +1,8 @@
+//go:build !verif
+
+package p2p
+
+import "github.com/canopy-network/canopy/lib"
+
+// verifYield is a no-op in production builds (see hooks_verif.go).
+func verifYield(string, lib.Topic) {}
